@@ -33,6 +33,8 @@ using namespace llvm;
 [[noreturn]] void refuse(const std::string& why);
 std::string sanitize(StringRef s);
 
+struct AccessDesc { const MDNode* tbaa = nullptr; Type* st = nullptr; int64_t off = 0; uint64_t size = 0; };
+
 struct Translator {
   Module& M;
   const DataLayout& DL;
@@ -50,11 +52,10 @@ struct Translator {
   std::vector<const GlobalVariable*> reachGOrder;
   std::set<std::string> externsUsed;
   std::vector<std::string> spinNotes;
-  std::set<const MDNode*> storedTypes;
-  std::set<Type*> storedAtomicTypes;
+  std::vector<AccessDesc> writes;
   bool storedTypesKnown = false, storedUnknown = false;
   unsigned readOnlyLoads = 0;
-  void computeStoredTypes();
+  void computeStoredTypes(const Function* only);
   bool usesUnwind = false; // module calls longjmp: model setjmp/longjmp by return propagation
   std::set<std::string> ghostPrefixes{"vfg_"};
 
@@ -86,7 +87,7 @@ struct Translator {
   void emitGlobalDecl(raw_ostream& os, const GlobalVariable* G);
   void emitGlobalDef(raw_ostream& os, const GlobalVariable* G);
   std::string protoOf(const Function* F, const std::string& name);
-  void emitFunction(raw_ostream& os, const Function& F, int tid);
+  void emitFunction(raw_ostream& os, const Function& F, int tid, bool step = true);
   void emitScheduler(raw_ostream& os, const Function& F);
   void writeSidecar(raw_ostream& os, const std::vector<std::string>& roots);
 };
@@ -105,8 +106,8 @@ struct FnEmitter {
   std::set<const Value*> privatePtrs;
   bool usesSetjmp = false;
 
-  FnEmitter(Translator& t, const Function& f, int tid_)
-      : T(t), F(f), tid(tid_), step(tid_ >= 0) {}
+  FnEmitter(Translator& t, const Function& f, int tid_, bool step_)
+      : T(t), F(f), tid(tid_), step(step_) {}
   std::string val(const Value* V);
   std::string ty(Type* t) { return T.cty(t); }
   void run(raw_ostream& os);
